@@ -889,6 +889,23 @@ def W3_indexing(rep, flow: Flow):
                 if isinstance(n, (ast.Assign, ast.AugAssign)) and isinstance(getattr(n, "target", n.targets[0] if isinstance(n, ast.Assign) else None), ast.Name) \
                         and getattr(n, "target", n.targets[0] if isinstance(n, ast.Assign) else None).id == rv and isinstance(n, ast.AugAssign):
                     merged = True
+        if not merged:
+            # the returned dictionary handed to the per-circuit fitter as an accumulator: merged by the callee, if the callee
+            # (a method of the tomography module with a parameter of that name) stores into it or hands it on
+            for loop in [n for n in ast.walk(f.node) if isinstance(n, ast.For)]:
+                for c in [x for x in ast.walk(loop) if isinstance(x, ast.Call)]:
+                    for k in c.keywords:
+                        if k.arg is not None and isinstance(k.value, ast.Name) and k.value.id == rv and isinstance(c.func, ast.Attribute):
+                            cands = [g for g in flow.prog.modules[TOMO].all_funcs if g.name == c.func.attr and k.arg in g.params]
+                            for g in cands:
+                                writes = any((isinstance(n, ast.Assign) and any(isinstance(t, ast.Subscript) and isinstance(t.value, ast.Name) and t.value.id == k.arg for t in n.targets)) or
+                                             (isinstance(n, ast.Call) and isinstance(n.func, ast.Attribute) and isinstance(n.func.value, ast.Name) and n.func.value.id == k.arg and n.func.attr in ("update", "setdefault")) or
+                                             (isinstance(n, ast.Call) and any(kk.arg is not None and isinstance(kk.value, ast.Name) and kk.value.id == k.arg for kk in n.keywords))
+                                             for n in ast.walk(g.node))
+                                if writes:
+                                    merged = True
+                            if cands and not merged:
+                                raise AnalysisError(f"{pyfacts.where(f, c)}: the returned dictionary `{rv}` is handed to `{c.func.attr}` as `{k.arg}=`: whether the callee fills it is not decidable here")
         if merged:
             rep.ok("W3", 1, nontrivial="merge", sample=f"per-circuit expectation values are merged into `{rv}`")
         else:
@@ -904,6 +921,22 @@ def W3_indexing(rep, flow: Flow):
     gc = [n for nd in nodes for n in ast.walk(nd) if isinstance(n, ast.Call) and isinstance(n.func, ast.Attribute) and n.func.attr == "get_counts"]
     def is_index(e):
         return isinstance(e, ast.Attribute) and e.attr == attr
+    # the selection may live in a module-level helper that receives the stored index as an argument
+    if attr and not used:
+        for nd in nodes:
+            for c in [x for x in ast.walk(nd) if isinstance(x, ast.Call) and isinstance(x.func, ast.Name)]:
+                pos = [i for i, a in enumerate(c.args) if is_index(a)]
+                kws = [k.arg for k in c.keywords if k.arg is not None and is_index(k.value)]
+                if not pos and not kws:
+                    continue
+                helper = next((g for g in flow.prog.modules[TOMO].all_funcs if g.name == c.func.id and g.cls is None), None)
+                if helper is None:
+                    raise AnalysisError(f"{pyfacts.where(fit, c)}: the stored result index is handed to `{c.func.id}`, which is not a function of the tomography module: how the counts are selected is not decidable here")
+                pnames = [helper.params[i] for i in pos if i < len(helper.params)] + kws
+                if any(isinstance(n, ast.Subscript) and isinstance(n.slice, ast.Name) and n.slice.id in pnames for n in ast.walk(helper.node)):
+                    used = [c]
+                else:
+                    raise AnalysisError(f"{pyfacts.where(fit, c)}: the stored result index is handed to `{c.func.id}`, which does not index with it directly: how the counts are selected is not decidable here")
     by_index = [n for n in gc if any(is_index(a) for a in n.args) or any(is_index(k.value) for k in n.keywords)]
     by_other = [n for n in gc if (n.args or n.keywords) and n not in by_index]
     if attr and by_other and not used and not by_index:
